@@ -48,6 +48,11 @@ def run(P, rep, tier):
     rep.attempt(r3_name_language, P, rep, ctx)
     rep.attempt(r4_close_discard, P, rep, ctx)
     rep.attempt(r5_codec, P, rep, ctx)
+    # open mode 'r' never writes: commit / discard / create_patch refuse read-only records and act only on a really
+    # pending newest container (typestate rules shared with C02, rule ids C02.R3)
+    from . import c02
+
+    rep.attempt(c02.r3_typestate, P, rep, ctx)
     rep.floor("C03.R1", 5)
     rep.floor("C03.R2", 25)
     rep.floor("C03.R3", 9)
